@@ -8,14 +8,21 @@
        recovered from its padded form;
      - the parameter set in use is the one registered under the name of the selected backend; the toy set
        is only ever used for the backend called nobackend (decision model; the selection itself is C19).
-   PARTIAL: "traced gadget = plain reference on every input" is established by trace correspondence (model of the
-   traced gadget = real trace) plus in-kernel evaluation of model and reference on the sampled inputs, and by the
-   plain-Python reference in the harness; a proof for all inputs needs the value semantics of [mul] and is not done.
+   "Traced gadget = plain reference on EVERY input" is proved about the model (Proofs/PoseidonValues.v over the wp calculus):
+   for every prime p, every parameter set with a positive S-box exponent, every input vector and every generator state
+   satisfying the invariant, the model's traced permutation (S-boxes by multiplication gadgets, linear layers reduced modulo p)
+   returns field elements congruent to the reference permutation of the input values (C20_permutation_equals_reference), the
+   sponge -- padding with LinComb.ONE and zeros, absorption, one permutation per block -- to the reference hash
+   (C20_sponge_equals_reference, outside guarded regions), and the subset-sum hash of secret bits to the reference subset sum
+   (C20_subset_sum_equals_reference).  The model is tied to the real traced gadgets by the trace correspondence (toy parameter
+   set in-kernel; real sets against the plain-Python reference of the harness).
    Input-independence of the constraint count is the C06 theorem (SPermute/SPoseidon are ordinary statements). *)
 From Coq Require Import ZArith List Bool String Lia.
 From PySnark Require Import Generated GeneratedPoseidon.
-From PySnark.Model Require Import Hash.
-From PySnark.Proofs Require Import PoseidonVectors.
+From Coq Require Import Znumtheory.
+From PySnark.Base Require Import FieldZ.
+From PySnark.Model Require Import Lc Sym Gadgets Api Hash Prog.
+From PySnark.Proofs Require Import PoseidonVectors Meta FieldOk Wp WpBase PoseidonValues.
 Import ListNotations.
 Open Scope Z_scope.
 
@@ -75,4 +82,47 @@ Theorem C20_real_parameter_shape :
          [poseidon_zkinterface; poseidon_zkifbellman; poseidon_zkifbulletproofs].
 Proof. repeat constructor. Qed.
 
+(* ---- the traced gadgets equal the plain reference on every input (model level) ---- *)
+Section C20_values.
+Variable p : Z.
+Hypothesis Hp : prime p.
+Variables (ins : list Z) (ig : bool).
+Local Notation F := (field_ok_prime p Hp).
+Local Notation cong := (PoseidonValues.cong (p:=p) ins ig).
+Local Notation scs := (PoseidonValues.scs (p:=p)).
+(* [wp m s sg Q] for every Q implied by the stated facts = every run of m from a state satisfying the invariant that does not
+   raise ends in a state with those facts (Wp.wp_sound) *)
+Theorem C20_permutation_equals_reference : forall (ps : poseidon_params), 1 <= pa ps ->
+  forall st vals (s : @Gadgets.gst p) sg (Q : list (Sym.slc p) -> @Gadgets.gst p -> store -> Prop),
+  WpBase.Inv ins ig s sg -> scs s st -> cong sg st vals ->
+  (forall out s' sg', WpBase.Inv ins ig s' sg' -> ext sg sg' -> scs s' out -> cong sg' out (permute_ref p ps vals) -> Q out s' sg') ->
+  Wp.wp ins ig (permute_m ps st) s sg Q.
+Proof. intros ps Ha st vals s sg Q. exact (permute_value ins ig F ps Ha st vals s sg Q). Qed.
+Theorem C20_sponge_equals_reference : forall (ps : poseidon_params) (msg : list (Sym.slc p)) (vals : list Z) (s : @Gadgets.gst p) sg
+  (Q : list (Sym.slc p) -> @Gadgets.gst p -> store -> Prop),
+  1 <= pa ps -> WpBase.Inv ins ig s sg -> guard s = None -> scs s msg -> cong sg msg vals ->
+  (forall out s' sg', WpBase.Inv ins ig s' sg' -> ext sg sg' -> cong sg' out (hash_ref p ps vals) -> Q out s' sg') ->
+  Wp.wp ins ig (poseidon_hash_m ps msg) s sg Q.
+Proof. exact (hash_value ins ig F). Qed.
+Theorem C20_subset_sum_equals_reference : forall (c : cfg) (x : Sym.slc p) xs k ks sg,
+  exists r, ggh_m c (k :: ks) (map (@PLC p) (x :: xs)) = Gadgets.ret (PLC r) /\
+            feq p (vz ins ig sg r) (ggh_ref p (k :: ks) (map (vz ins ig sg) (x :: xs))).
+Proof. intros c. exact (ggh_value ins ig F c). Qed.
+End C20_values.
+
+(* non-vacuity of the hypotheses: five secret inputs 1..5 held by five witnesses *)
+Example C20_values_example :
+  let s : @Gadgets.gst 65537 := upd_counters (init_gst (p:=65537)) 0 5 10 in
+  let sg := {| pubs := []; privs := [1; 2; 3; 4; 5] |} in
+  let st := map (fun i => var_slc (p:=65537) (- i)) [1; 2; 3; 4; 5] in
+  WpBase.Inv [] false s sg /\ PoseidonValues.scs s st /\ PoseidonValues.cong [] false sg st [1; 2; 3; 4; 5] /\ 1 <= pa poseidon_zkinterface.
+Proof.
+  cbv zeta. split; [split; [split; reflexivity|split; [reflexivity|split; reflexivity]]|].
+  split; [repeat constructor|]. split; [|vm_compute; discriminate].
+  repeat constructor; exists 0; vm_compute; reflexivity.
+Qed.
+
+Print Assumptions C20_permutation_equals_reference.
+Print Assumptions C20_sponge_equals_reference.
+Print Assumptions C20_subset_sum_equals_reference.
 Print Assumptions C20_padding_injective.
